@@ -184,4 +184,75 @@ class IndexedEdgesArm(TrajArm):
         return res
 
 
-ARMS = [TrajArm(), IndexedEdgesArm()]
+class EdgeTemplateArm(TrajArm):
+    """ONE EdgeTemplate with an algebraic operator used by several edge groups: two node types with 2-4 nodes each,
+    2-3 (source type, target type) projections, inside each projection edges with pairwise distinct targets and per-edge
+    values for the edge operator's constants.  (Unstructured mixtures - a plain edge parallel to a templated one, fan-in
+    through the template, groups of a single node - fail in other ways on the unchanged tree: listed findings F-04e/f/g;
+    they are not generated here.)"""
+    name = "edge_templates"
+    budget = {"quick": 240, "thorough": 3000}
+    min_per_shard = 10
+    required_labels = ("edge_template_shared", "groups>=2", "merged>=2")
+
+    def strategy(self, ctx):
+        from .. import expr as E
+
+        @st.composite
+        def case(draw):
+            base = draw(gen.model_spec({"leak": True, "max_types": 2, "max_ops": 1, "max_nodes": 2, "min_nodes": 2, "max_edges": 0,
+                                        "depths": [0], "expr_depth": 2, "max_state": 1, "max_alg": 0, "max_in": 2,
+                                        "overrides": False, "collision": False}))
+            types = sorted({nt for _, nt in base["nodes"]})
+            sizes = {nt: draw(st.integers(2, 4)) for nt in types}
+            base["nodes"] = [[f"{nt}_{i}", nt] for nt in types for i in range(sizes[nt])]
+            spec = gen.uniquify_init(base)
+            spec["nodes"] = [[p, nt] for p, nt in spec["nodes"]]
+            rm = RefModel(spec)
+            ast, _ = draw(E.expr_strategy(["s_e", "g_e", "c_e"], max_depth=2, funcs=["tanh", "sigmoid", "sin"], allow_pow=False))
+            if not gen.depends_on(ast, "s_e", ["s_e", "g_e", "c_e"]):
+                ast = ["bin", "*", ["var", "g_e"], ["call", "tanh", ["bin", "*", ["var", "c_e"], ["var", "s_e"]]]]
+            vs = E.variables(ast)
+            consts = [v for v in ("g_e", "c_e") if v in vs]
+            spec["ops"]["eop0"] = {"vars": [["s_e", "input", 0.0], ["m_e", "alg", 0.0]] + [[v, "const", 1.5] for v in consts],
+                                   "eqs": [["m_e", False, ast, 0]], "out": "m_e"}
+            spec["etypes"] = {"et0": {"ops": ["eop0"], "ov": {}}}
+            by_type = {nt: [p for p, n_ in base["nodes"] if n_ == nt] for nt in types}
+            projections = draw(st.lists(st.tuples(st.sampled_from(types), st.sampled_from(types)), min_size=2, max_size=3, unique=True))
+            val = st.sampled_from([0.7, 1.3, -0.4, 2.1, 0.25])
+            edges, taken = [], set()
+            for st_, tt_ in projections:
+                p0s, p0t = by_type[st_][0], by_type[tt_][0]
+                sr = sorted(k[len(p0s) + 1:] for k in rm.state_paths if k.startswith(p0s + "/"))
+                tg = sorted(k[len(p0t) + 1:] for k, kd in rm.kind.items() if kd == "input" and k.startswith(p0t + "/"))
+                tg = [t for t in tg if (tt_, t) not in taken]
+                if not sr or not tg:
+                    continue
+                sv, tv = draw(st.sampled_from(sr)), draw(st.sampled_from(tg))
+                taken.add((tt_, tv))
+                targets = list(draw(st.permutations(by_type[tt_])))
+                m = draw(st.integers(2, len(targets)))
+                for j in range(m):
+                    s_node = draw(st.sampled_from(by_type[st_]))
+                    edges.append({"s": f"{s_node}/{sv}", "t": f"{targets[j]}/{tv}", "w": draw(st.sampled_from([2.0, 0.5, -1.5, 1.0])),
+                                  "d": None, "sp": None, "et": "et0", "ev": {f"eop0/{c}": draw(val) for c in consts}, "scope": ""})
+            spec["edges"] = edges
+            cfg = {"vectorize": True, "dt": 0.01, "steps": draw(st.integers(10, 16)), "matrix_sparseness": None}
+            return {"spec": spec, "cfg": cfg, "n_groups": len(taken)}
+        return case()
+
+    def run(self, case, ctx):
+        res = super().run(case, ctx)
+        if not case["spec"]["edges"] and not res.excluded:
+            res.rejected = res.rejected or "no projection could be drawn"
+            res.violations.clear()
+        lab = set(res.labels)
+        if len(case["spec"]["edges"]) >= 2:
+            lab.add("edge_template_shared")
+        if case.get("n_groups", 0) >= 2:
+            lab.add("groups>=2")
+        res.labels = sorted(lab)
+        return res
+
+
+ARMS = [TrajArm(), IndexedEdgesArm(), EdgeTemplateArm()]
